@@ -245,6 +245,14 @@ func driveConc(rc *RunCtx) {
 			if st.ServeParked() {
 				continue
 			}
+			// a caller that panicked inside the critical section leaves the party mutex locked for ever:
+			// report it now, before anybody else is sent to that mutex
+			for _, c := range calls {
+				if c.panicVal != nil {
+					rc.Fail("panic", "%s on %s panicked under concurrent calls (lock order so far: %v): %v", c.kind, c.node.Name, lockTrace, c.panicVal)
+					return
+				}
+			}
 			var elig []*call
 			alldone := len(pending) == 0
 			for _, c := range calls {
